@@ -359,4 +359,10 @@ def run(ctx):
     acc = transitive_field_access(f, [BUILDER + "::build"], kinds=("read", "ref"))
     read = {fl for (adt_, fl) in acc if adt_ == BUILDER}
     ctx.check(set(fields) <= read, "build:reads-all", "build ignores builder fields %s" % sorted(set(fields) - read), sample={"read": sorted(read)})
-    ctx.assumptions += ["validator contents and the wrong-side castling rejection are C06's rules", "equality of the built and the parsed board additionally needs C03/C10"]
+    # "states no record can express (a castling right on the wrong side of the king) are rejected", and "building succeeds
+    # exactly when the record parses", rest on what the shared validators test: C06 owns that equivalence rule; re-run here
+    from . import c06
+    expl_ = ctx.explanation
+    c06.check_validators(ctx, f, L, g)
+    ctx.explanation = expl_
+    ctx.assumptions += ["equality of the built and the parsed board additionally needs C03/C10"]
